@@ -20,7 +20,7 @@ import warnings
 
 import numpy as np
 
-from holopy.core.metadata import make_subset_data
+from holopy.core.metadata import make_subset_data, dict_to_array
 from holopy.core.utils import ensure_array, ensure_listlike, ensure_scalar
 from holopy.core.holopy_object import HoloPyObject
 from holopy.core.errors import raise_fitting_api_error
@@ -281,6 +281,9 @@ class Model(HoloPyObject):
                 val = 1
             else:
                 raise MissingParameter('noise_sd for non-uniform priors')
+        if isinstance(val, dict):
+            # per-channel noise: label it like the data's channels
+            val = dict_to_array(schema, val)
         return val
 
     def generate_guess(self, n=1, scaling=1, seed=None):
